@@ -87,6 +87,33 @@ func checkPortable(c portCase) (h.Info, error) {
 			}
 		}
 	}
+	// buffers that are exactly adjacent in memory (disjoint, but one starts where another ends), in
+	// every order: the routines may not care how their four buffers are laid out
+	var blk [6][curl.StateSize]uint
+	for name, f := range map[string]func(lto, hto, lfrom, hfrom *[curl.StateSize]uint){"build-selected transform": curl.VerifTransform, "transformGeneric": curl.VerifTransformGeneric} {
+		for li, lay := range [][4]int{{1, 2, 3, 4}, {4, 3, 2, 1}, {2, 4, 1, 3}, {3, 1, 4, 2}, {1, 3, 2, 4}} {
+			for i := range blk {
+				for w := range blk[i] {
+					blk[i][w] = fence
+				}
+			}
+			blk[lay[2]], blk[lay[3]] = l, hh
+			f(&blk[lay[0]], &blk[lay[1]], &blk[lay[2]], &blk[lay[3]])
+			for w := range blk[0] {
+				if blk[0][w] != fence || blk[5][w] != fence {
+					return info, fmt.Errorf("%s [%s build]: adjacent-buffer layout %v: memory next to the buffers was overwritten", name, buildVariant, lay)
+				}
+			}
+			for j := range lanes {
+				for i := 0; i < curl.StateSize; i++ {
+					got := int8(blk[lay[1]][i]>>uint(j)&1) - int8(blk[lay[0]][i]>>uint(j)&1)
+					if got != want[j][i] {
+						return info, fmt.Errorf("%s [%s build] with its four buffers adjacent in memory (layout #%d: lto, hto, lfrom, hfrom = blocks %v of one array): lane %d trit %d = %d, Curl-P-81 reference %d", name, buildVariant, li, lay, j, i, got, want[j][i])
+					}
+				}
+			}
+		}
+	}
 	return info, nil
 }
 
@@ -97,7 +124,7 @@ func TestPortableStates(t *testing.T) {
 			return portCase{Seed: rapid.Uint64().Draw(t, "seed"), Mode: rapid.IntRange(0, 5).Draw(t, "mode")}
 		},
 		Check: checkPortable, Require: []string{"portable/mode2", "portable/mode4"},
-		Rule: "hook, every build target (amd64 default and purego, GOARCH=386 with 32-bit words): valid states of W = bits-per-word lanes (equal / single-trit differences / all different / sparse / all zero except one position or a short prefix) through the build-selected transform and transformGeneric in ordinary memory with canary words around all four buffers; every lane = 81 rounds of scalar Curl-P; non-trivial = lanes differ; distinct by case",
+		Rule: "hook, every build target (amd64 default and purego, GOARCH=386 with 32-bit words): valid states of W = bits-per-word lanes (equal / single-trit differences / all different / sparse / all zero except one position or a short prefix) through the build-selected transform and transformGeneric in ordinary memory with canary words around all four buffers, and with the four buffers exactly adjacent in five orders; every lane = 81 rounds of scalar Curl-P; non-trivial = lanes differ; distinct by case",
 	})
 }
 
